@@ -285,6 +285,57 @@ func runTxFlow(c *Case) ([]Obs, any) {
 					return append(Obs{ERR}, f.encEvents(f.rec.take(), false)...)
 				}
 				return append(Obs{OK}, f.encEvents(f.rec.take(), false)...)
+			case "race_delay": // txid conflicting-txid src : the delay check's read-modify-write of txid's state raced
+				// with the arrival of a conflicting tx (which lands between the check's read and its write)
+				t, ctx2 := op.Int(0), ctx
+				cx, ok := tu.txs[op.Int(1)]
+				if !ok {
+					panic(harnessErr("undeclared tx"))
+				}
+				paused, resume := f.store.ArmPause(tu.HashOf(t).String())
+				done := make(chan struct{})
+				go func() { f.node.VerifDelayCheck(ctx2); close(done) }()
+				reached := false
+				select {
+				case <-paused:
+					reached = true
+				case <-done:
+				case <-time.After(2 * time.Second):
+				}
+				f.store.DisarmPause()
+				if !reached {
+					select {
+					case <-done:
+					case <-time.After(2 * time.Second):
+					}
+					return append(Obs{OK, 0}, f.encEvents(f.rec.take(), true)...)
+				}
+				// the delay check has read the state and is about to write it back: now the conflict arrives
+				cdone := make(chan error, 1)
+				go func() {
+					var err error
+					if op.Int(2) == 0 {
+						_, err = f.node.VerifHandlers()[wire.CmdTx].Handle(ctx2, cx)
+					} else {
+						f.ustate.SetVerified()
+						_, err = f.untrust[wire.CmdTx].Handle(ctx2, cx)
+					}
+					if err == nil {
+						err = f.node.VerifDrainTxs(ctx2)
+					}
+					cdone <- err
+				}()
+				select {
+				case <-cdone: // the conflict was processed while the check was between its read and its write
+				case <-time.After(300 * time.Millisecond): // it waits for the check (a lock): let the check finish first
+				}
+				close(resume)
+				<-done
+				select {
+				case <-cdone:
+				case <-time.After(2 * time.Second):
+				}
+				return append(Obs{OK, 1}, f.encEvents(f.rec.take(), false)...)
 			case "inv": // txid trusted
 				h := tu.HashOf(op.Int(0))
 				inv := wire.NewMsgInv()
